@@ -9,6 +9,7 @@ import (
 )
 
 func ConfigHeaderToDBHeader(confighdr *config.Header) *models.Header {
+	// The index stores instants in UTC, so that the time zone a value was created in (i.e. one without an alphabetic abbreviation, which the database driver can't read back) never reaches the database
 	return &models.Header{
 		Record:          confighdr.Record,
 		Lastknownrecord: confighdr.Lastknownrecord,
@@ -23,9 +24,9 @@ func ConfigHeaderToDBHeader(confighdr *config.Header) *models.Header {
 		Gid:             confighdr.Gid,
 		Uname:           confighdr.Uname,
 		Gname:           confighdr.Gname,
-		Modtime:         confighdr.Modtime,
-		Accesstime:      confighdr.Accesstime,
-		Changetime:      confighdr.Changetime,
+		Modtime:         confighdr.Modtime.UTC(),
+		Accesstime:      confighdr.Accesstime.UTC(),
+		Changetime:      confighdr.Changetime.UTC(),
 		Devmajor:        confighdr.Devmajor,
 		Devminor:        confighdr.Devminor,
 		Paxrecords:      confighdr.Paxrecords,
